@@ -1,5 +1,6 @@
 import RsslVerif.Lemmas.Overload
 import RsslVerif.Lemmas.Conv
+import RsslVerif.Lemmas.OverloadLazy
 /-!
 # C16 — overload resolution is order-independent and prefers exact matches
 
@@ -53,6 +54,11 @@ theorem resolve_perm {cands cands' : List Cand} (h : List.Perm cands cands') (ar
   · simp [hp, Outcome.Equiv]
   · simp only [hp, Bool.false_eq_true, if_false]
     exact resolveRanked_perm (hm.filterMap _)
+
+/-- the same, for the verdict in the form the correspondence run compares (ambiguous ids sorted): **equal** -/
+theorem resolve_perm_normalized {cands cands' : List Cand} (h : List.Perm cands cands') (args : List ETy) :
+    (resolve cands args).normalize = (resolve cands' args).normalize :=
+  normalize_eq_of_equiv (resolve_perm h args)
 
 /-- non-vacuity of `resolve_perm`: a three-candidate set where the verdict is a selection, and one where it is an
     ambiguity listed in a different order -/
@@ -288,5 +294,24 @@ example :
     let lit : List ETy := [⟨⟨{}, .vector .float32 3⟩, .lvalue⟩, ⟨⟨{}, .scalar .intLiteral⟩, .rvalue⟩]
     resolve [c0, c1, c2] a = .selected 1 ∧ resolve [c2, c1, c0] a = .selected 1 ∧
     resolve [c0, c1, c2] lit = .selected 0 ∧ resolve [c1, c2, c0] lit = .selected 0 := by decide
+
+/-! ## the literal transcription -/
+
+/-- **Refinement.** `resolveLazy` transcribes `find_function_type` with `get_rank` evaluated exactly where the Rust
+    code evaluates it (inside the tournament's `zip` loop, with the `continue`/`break` of the `against` loop, and again
+    in `count_by_rank`).  For pairwise distinct `FunctionId`s it computes the same outcome — including *whether* a
+    panic is reached — as `resolve`, which ranks everything first.  Every theorem above is therefore a theorem about
+    the literal transcription. -/
+theorem resolveLazy_eq_resolve (cands : List Cand) (args : List ETy) (hid : (cands.map (·.id)).Nodup) :
+    resolveLazy cands args = resolve cands args :=
+  RsslVerif.Lemmas.OverloadLazy.resolveLazy_eq cands args hid
+
+/-- order independence, stated for the literal transcription -/
+theorem resolveLazy_perm {cands cands' : List Cand} (h : List.Perm cands cands') (args : List ETy)
+    (hid : (cands.map (·.id)).Nodup) :
+    (resolveLazy cands args).normalize = (resolveLazy cands' args).normalize := by
+  rw [resolveLazy_eq_resolve cands args hid,
+      resolveLazy_eq_resolve cands' args ((h.map (·.id)).nodup_iff.mp hid)]
+  exact resolve_perm_normalized h args
 
 end RsslVerif.Thm.C16
